@@ -1249,6 +1249,133 @@ pub fn static_eof_strategy() -> BoxedStrategy<StaticEofCase> {
     (container(1, Just(false).boxed()), container(1, Just(false).boxed()), prop::collection::vec(any::<u8>(), 0..40), 0u8..2).prop_map(|(a, b, calldata, root)| StaticEofCase { a, b, calldata, root }).boxed()
 }
 
+
+// ------------------------------------------------------------------------------------------
+// C21 on EOF creation kinds
+// ------------------------------------------------------------------------------------------
+
+#[derive(Clone, Debug, Hash, Serialize, Deserialize)]
+pub struct EofCollisionCase {
+    /// bit0 code, bit1 nonce, bit2 storage
+    pub target: u8,
+    /// 0 EOF create transaction, 1 EOFCREATE from a factory
+    pub kind: u8,
+    pub layer: u8,
+    pub value: u8,
+}
+
+pub fn c21_eof_case(c: &EofCollisionCase) -> CaseResult {
+    use revm::primitives::ExecutionResult;
+    let spec = SpecId::OSAKA;
+    let stop = |body: Vec<Node>, term: Term| Section { inputs: 0, outputs: None, body, term };
+    let runtime = ContainerSpec { initcode: false, sections: vec![stop(vec![], Term::Stop)], data: vec![0xaa, 0xbb], data_missing: 0, subs: vec![] };
+    let init = ContainerSpec { initcode: true, sections: vec![stop(vec![], Term::ReturnContract(0))], data: vec![], data_missing: 0, subs: vec![runtime.clone()] };
+    // factory: EOFCREATE(sub 0) with value; slot 1 <- created address; slot 2 <- 7 (the frame continues)
+    let factory_code = {
+        let mut code = vec![];
+        code.extend_from_slice(&[0x5f, 0x5f, 0x60, 0x09, 0x60, c.value & 1, 0xec, 0x00]); // in_size 0, in_off 0, salt 9, value; EOFCREATE 0
+        code.extend_from_slice(&[0x60, 0x01, 0x55]); // SSTORE(1, address)
+        code.extend_from_slice(&[0x60, 0x07, 0x60, 0x02, 0x55, 0x00]); // SSTORE(2, 7); STOP
+        code
+    };
+    let init_bytes = assemble_container(&init, 0);
+    let runtime_bytes = assemble_container(&runtime, 0);
+    let factory_bytes = {
+        let mut v = vec![0xef, 0x00, 0x01, 0x01, 0x00, 0x04, 0x02, 0x00, 0x01];
+        v.extend_from_slice(&(factory_code.len() as u16).to_be_bytes());
+        v.extend_from_slice(&[0x03, 0x00, 0x01]);
+        v.extend_from_slice(&(init_bytes.len() as u16).to_be_bytes());
+        v.extend_from_slice(&[0x04, 0x00, 0x00, 0x00, 0x00, 0x80, 0x00, 0x04]);
+        v.extend_from_slice(&factory_code);
+        v.extend_from_slice(&init_bytes);
+        v
+    };
+    for (name, b, kind) in [("init", &init_bytes, CodeType::ReturnContract), ("factory", &factory_bytes, CodeType::ReturnOrStop)] {
+        if let Err(e) = validate_raw_eof_inner(Bytes::copy_from_slice(b), Some(kind)) {
+            return Err(vec![Failure::new("C21|harness|eof-fixture-invalid", format!("{name} container rejected: {e:?}"))]);
+        }
+    }
+    let sender = pool::eoa(0);
+    let factory = pool::contract(0);
+    let mut pre = r::World::new();
+    pre.insert(sender, r::Account { balance: vgen::world::eth(1000), nonce: 0, code: vec![], storage: Default::default() });
+    pre.insert(factory, r::Account { balance: r::U256::from(1000), nonce: 1, code: factory_bytes, storage: Default::default() });
+    let block = vgen::world::BlockSpec::plain().build();
+    let tx = r::Tx {
+        tx_type: r::TxType::Legacy,
+        caller: sender,
+        to: if c.kind % 2 == 0 { None } else { Some(factory) },
+        value: if c.kind % 2 == 0 { r::U256::from((c.value & 1) as u64) } else { r::U256::zero() },
+        data: if c.kind % 2 == 0 { init_bytes.clone() } else { vec![] },
+        gas_limit: 3_000_000,
+        gas_price: block.base_fee + r::U256::from(1),
+        max_priority_fee: None,
+        nonce: Some(0),
+        chain_id: Some(block.chain_id),
+        access_list: vec![],
+        blob_hashes: vec![],
+        max_fee_per_blob_gas: r::U256::zero(),
+        authorization_list: vec![],
+    };
+    // where does the new contract go?  create transaction: own formula; EOFCREATE: observed on a free address first
+    let target: r::Address = if c.kind % 2 == 0 {
+        r::create_address(sender, 0)
+    } else {
+        let rs = run_plain(spec, &pre, &block, &tx).map_err(|e| vec![Failure::new("C21|harness|rejected", e)])?;
+        let mut post = pre.clone();
+        apply_state(&mut post, &rs.state, true);
+        let w = post.get(&factory).and_then(|a| a.storage.get(&r::U256::one())).copied().unwrap_or_default();
+        let mut b = [0u8; 32];
+        w.to_big_endian(&mut b);
+        let mut a = [0u8; 20];
+        a.copy_from_slice(&b[12..]);
+        if w.is_zero() || post.get(&a).map(|x| x.code != runtime_bytes).unwrap_or(true) {
+            return Err(vec![Failure::new("C21|creation-on-free-address-failed", format!("EOFCREATE on a free address did not deploy the runtime container: result {:?}", rs.result))]);
+        }
+        a
+    };
+    let (has_code, has_nonce, has_storage) = (c.target & 1 != 0, c.target & 2 != 0, c.target & 4 != 0);
+    if c.target != 0 {
+        pre.insert(
+            target,
+            r::Account {
+                balance: r::U256::from(3u64),
+                nonce: if has_nonce { 1 } else { 0 },
+                code: if has_code { vec![0x00] } else { vec![] },
+                storage: if has_storage { [(r::U256::from(5u64), r::U256::from(6u64))].into_iter().collect() } else { Default::default() },
+            },
+        );
+    }
+    let before = pre.get(&target).cloned();
+    let collision = has_code || has_nonce || has_storage;
+    let layer_name = ["ModelDB", "State", "CacheDB", "CacheDB+insert_account_storage", "WrapDatabaseRef", "State+bundle"][c.layer as usize % 6];
+    let rs = crate::histcheck::run_layered(c.layer, spec, &pre, &target, make_env(spec, &block, &tx)).map_err(|e| vec![Failure::new("C21|harness|rejected", e)])?;
+    let mut post = pre.clone();
+    apply_state(&mut post, &rs.state, true);
+    let what = if has_storage && !has_code && !has_nonce { "storage-only" } else { "code/nonce" };
+    let kind_name = ["EOF create tx", "EOFCREATE"][c.kind as usize % 2];
+    let sig = |clause: &str| format!("C21|{clause}|{what}|{layer_name}|eof");
+    let ctxs = format!("[kind {kind_name} target(code {has_code}, nonce {has_nonce}, storage {has_storage}) layer {layer_name} OSAKA]");
+    let after = post.get(&target);
+    if collision {
+        ensure!(after == before.as_ref(), sig("collision-missed-target-changed"), "creation onto an occupied address changed it: before {before:?} after {after:?} {ctxs}");
+        if c.kind % 2 == 0 {
+            ensure!(matches!(rs.result, ExecutionResult::Halt { .. }), sig("collision-missed"), "create transaction onto an occupied address ended with {:?} {ctxs}", rs.result);
+            ensure!(rs.result.gas_used() == tx.gas_limit, sig("collision-gas"), "collision must consume all gas: used {} of {} {ctxs}", rs.result.gas_used(), tx.gas_limit);
+        } else {
+            let f = post.get(&factory).unwrap();
+            let pushed = f.storage.get(&r::U256::one()).copied().unwrap_or_default();
+            ensure!(pushed.is_zero(), sig("collision-missed"), "EOFCREATE onto an occupied address pushed {pushed:#x} instead of 0 {ctxs}");
+            ensure!(f.nonce == 2, sig("creator-nonce"), "factory nonce {} after a colliding EOFCREATE, expected 2 {ctxs}", f.nonce);
+            ensure!(f.storage.get(&r::U256::from(2)) == Some(&r::U256::from(7u64)), sig("creator-continues"), "factory frame did not continue after the failed EOFCREATE {ctxs}");
+        }
+    } else {
+        let deployed = after.map(|a| a.code.clone()).unwrap_or_default();
+        ensure!(deployed == runtime_bytes, "C21|creation-on-free-address-failed", "creation on a free address did not deploy: {:?} {ctxs}", rs.result);
+    }
+    Ok(Outcome::new(what == "storage-only").label(if collision { "collision" } else { "free" }).label(if c.kind % 2 == 0 { "eof-create-tx" } else { "EOFCREATE" }))
+}
+
 pub fn built_strategy() -> BoxedStrategy<BuiltCase> {
     (container(2, prop::bool::weighted(0.35).boxed()), prop::collection::vec(any::<u8>(), 0..40)).prop_map(|(spec, calldata)| BuiltCase { spec, calldata }).boxed()
 }
